@@ -37,6 +37,19 @@ def gen_case(rng, tier):
     if buildable and doc.get('new') is False:
         doc['new'] = None
     style = rng.choice(['flow', 'block'])
+    alias_text, alias_expanded = '', None
+    if rng.random() < 0.25:
+        # one node object reachable under several paths (YAML anchors / aliases), some of them through list elements: the copy must
+        # have the same sharing structure (one evaluation, one object)
+        style = 'block'
+        i = rng.randrange(1000)
+        alias_text, alias_expanded = rng.choice([
+            (f'al_s: &anc !call:verif_targets.t{i} {{x: 1}}\nal_l: [*anc, 2]\nal_m: {{k: *anc}}\n', None),
+            ('al_q: &anq [1, {z: 2}]\nal_r: {a: *anq, b: [*anq]}\n', None),
+            ('al_t: [&ant {p: !xref al_u, q: [1]}]\nal_u: 5\nal_v: [*ant, [*ant]]\n', None),
+            ('al_w: &anw "text"\nal_x: [*anw, *anw]\nal_y: {k: [*anw]}\n', None),
+            # the recorded finding: the shared node sits below parents that hand down different flags (a mapping and a list)
+            ('al_t: &ant {p: 1, q: [1]}\nal_v: [*ant]\n', 'al_t: {p: 1, q: [1]}\nal_v: [{p: 1, q: [1]}]\n')])
     before = [emit.emit(d, 'flow') for d in gen.rand_sequence(rng, rng.randrange(0, 3), 2, pool_s=POOL, hostile=False, kinds=('s',))]
     after = []
     for _ in range(rng.randrange(0, 3)):
@@ -44,12 +57,13 @@ def gen_case(rng, tier):
         after.append(emit.emit(gen.place_flags(rng, d, p=0.2, vocab=('prio', 'del')), 'flow'))
     muts = [{'sel': rng.random(), 'op': rng.choice(['set', 'del', 'clear', 'append', 'pop', 'insert', 'setitem']), 'r': rng.random(),
              'value': rng.choice([1, 'm', None, [1, 2], {'q': 1}])} for _ in range(rng.randrange(1, 5))]
-    return {'text': emit.emit(doc, style), 'buildable': buildable, 'safe': rng.random() < 0.8, 'filename': rng.choice([None, '/tmp/x/cfg.yaml']),
+    return {'text': emit.emit(doc, style) + alias_text, 'buildable': buildable, 'safe': rng.random() < 0.8, 'filename': rng.choice([None, '/tmp/x/cfg.yaml']),
             'method': rng.choice(['deepcopy', 'deepcopy', 'pickle2', 'pickle3', 'pickle4', 'pickle5']),
             'before': before, 'after': after, 'muts': muts, 'api': rng.random() < 0.15,
             # what is "being parsed" by this thread while the copy is made (copies made from a custom constructor, inside a parse loop ...):
             # the ambient per-thread defaults for new nodes must not leak into a copy
-            'ambient': rng.choice(['none', 'none', 'file', 'file_unsafe'])}
+            'ambient': rng.choice(['none', 'none', 'file', 'file_unsafe']),
+            'expanded': (emit.emit(doc, style) + alias_expanded) if alias_expanded else None}
 
 
 def _despecial(doc):
@@ -105,7 +119,18 @@ def ids(tree):
 
 
 def tv(t):
-    return view.tree_view(t, flags=FLAGS, md=True)
+    return view.tree_view(t, flags=FLAGS, md=True), sharing(t)
+
+
+def sharing(t):
+    """which paths lead to one and the same node object (groups of size > 1, container nodes and leaves alike)"""
+    from awesomeyaml.nodes.composed import ComposedNode
+    if not isinstance(t, ComposedNode):
+        return ()
+    groups = {}
+    for p, n in t.ayns.nodes_with_paths(include_self=False):
+        groups.setdefault(id(n), []).append(str(p))
+    return tuple(sorted(tuple(sorted(g)) for g in groups.values() if len(g) > 1))
 
 
 def mutate_metadata(tree, r):
@@ -258,13 +283,25 @@ def run(case):
             if tv(C3) != ref3:
                 vio.append({'mech': 'mutating-original-changes-copy', 'what': f'mutations {case["muts"]!r} on the original changed the copy; {txt}'})
     nt = any(tag in case['text'] for tag in ('!call', '!bind', '!xref', '!ref', '!eval', '!path', '!include', '!force {', '!weak {', '!del {', '!metadata'))
+    if vio and case.get('expanded') and all(v['mech'] in ('view-differs', 'inner-copy-differs', 'behaves-differently') for v in vio):
+        # delta for the recorded finding: the same document with every alias written out as a copy of the anchored text
+        twin = dict(case, text=case['expanded'], expanded=None)
+        if run(twin).get('status') == 'ok':
+            vio = [dict(vio[0], mech=KNOWN_ALIAS)]
     res = {'status': 'violation' if vio else 'ok', 'nontrivial': nt, 'feats': feats, 'sig': util.sig([case['text'], case['method'], case['safe']])}
     if vio:
         res['violations'] = vio
     return res
 
 
+KNOWN_ALIAS = 'node-shared-through-yaml-alias-has-one-set-of-inherited-flags'
+
+
 def _diff(a, b, path=''):
+    if isinstance(a, tuple) and len(a) == 2 and isinstance(a[1], tuple) and not path and isinstance(b, tuple) and len(b) == 2 and not isinstance(a[0], str):
+        if a[0] == b[0]:
+            return f'paths leading to one and the same node object: {a[1]!r} in the copy but {b[1]!r} in the original'
+        a, b = a[0], b[0]
     da, db = dict(a), dict(b)
     for k in sorted(set(da) | set(db)):
         if k == 'ch':
